@@ -5,6 +5,7 @@ import Ogen.JsonPointer_driver
 import Ogen.RegexConvert_feasibility
 import Ogen.JsonEqualDriver
 import Ogen.IntRoundTrip_proof
+import Ogen.RouterDriver
 
 /-! Line-protocol driver over all executable models: `<model> <payload>` per line, one
     canonical output line per input line. Core-only (no Mathlib) so it links natively. -/
@@ -40,13 +41,22 @@ def dispatch (line : String) : String :=
     | "enum" => JEqDrv.enumLine payload
     | _ => "bad-model"
 
-partial def loop (h : IO.FS.Stream) (out : IO.FS.Stream) : IO Unit := do
+/-- the router model is the one stateful model: `rset` installs the current tree for `rfind` -/
+partial def loop (h : IO.FS.Stream) (out : IO.FS.Stream) (tree : IO.Ref Tree.Node) : IO Unit := do
   let line ← h.getLine
   if line.isEmpty then return ()
-  out.putStrLn (dispatch line)
-  loop h out
+  if line.startsWith "rset " then
+    let (t, s) := Tree.setLine (line.drop 5).toString.trimAscii.toString
+    tree.set t
+    out.putStrLn s
+  else if line.startsWith "rfind " then
+    out.putStrLn (Tree.findLine (← tree.get) (line.drop 6).toString.trimAscii.toString)
+  else
+    out.putStrLn (dispatch line)
+  loop h out tree
 
 def main : IO Unit := do
   let out ← IO.getStdout
-  loop (← IO.getStdin) out
+  let tree ← IO.mkRef Tree.emptyRootD
+  loop (← IO.getStdin) out tree
   out.flush
